@@ -170,6 +170,7 @@ def own_normalisation_consistent(libname, inputs):
         categorical_edge_match
     real, ref = c02.get_scheme(libname)
     graphs = []
+    isolated = []
     try:
         for inp in inputs:
             real._verif_last_mol = None
@@ -193,6 +194,20 @@ def own_normalisation_consistent(libname, inputs):
                     t = 'ring-sda'
                 g.add_edge(b.GetBeginAtomIdx(), b.GetEndAtomIdx(), lab=t)
             graphs.append(g)
+            # isolated rings (sharing no atom with another ring) have ONE
+            # normal form: their perception must not differ between spellings
+            rings = [set(r) for r in hm.GetRingInfo().AtomRings()]
+            iso = []
+            for k, r in enumerate(rings):
+                if all(not (r & o) for j, o in enumerate(rings) if j != k):
+                    rl = list(hm.GetRingInfo().AtomRings()[k])
+                    iso.append((len(rl), tuple(sorted(
+                        str(hm.GetBondBetweenAtoms(
+                            rl[i], rl[(i + 1) % len(rl)]).GetBondType())
+                        for i in range(len(rl))))))
+            isolated.append(sorted(iso))
+        if isolated[0] != isolated[1]:
+            return True, False
         ring_only = nx.is_isomorphic(
             graphs[0], graphs[1],
             node_match=categorical_node_match('lab', None),
@@ -321,9 +336,10 @@ def classify(v):
     makes aromatic.  An instance must (a) differ in descriptors, not in
     failure, (b) each variant must be exactly the declared decomposition of
     its own normalised molecule (reference interpreter on the hook molecule),
-    and (c) the two normalised molecules must be the same labelled graph
-    except for the perception of ring bonds -- so any other cause of a
-    difference is still reported."""
+    (c) the two normalised molecules must be the same labelled graph except
+    for the perception of ring bonds, and (d) every ISOLATED ring (sharing no
+    atom with another ring; it has one normal form) must be perceived alike
+    in both -- so any other cause of a difference is still reported."""
     d = v.get('detail', {})
     if d.get('each_variant_is_the_declared_decomposition_of_its_own_'
              'normalised_molecule') is True and d.get(
